@@ -119,6 +119,14 @@ func checkC10(c WFaultCase, o *Obs) error {
 			if err := runWFault(c2, -1, "expired-deadline", nil, o); err != nil {
 				return fmt.Errorf("expired write deadline set before step %d on a transport that honours deadlines: %w", j, err)
 			}
+			// the same with a fresh deadline set right after step j (an application
+			// that notices the timeout and tries again)
+			steps = append(append(append([]WStep(nil), c.Steps[:j]...), WStep{Op: "deadline", Deadline: -1}, c.Steps[j], WStep{Op: "deadline", Deadline: 2}), c.Steps[j+1:]...)
+			c2.Steps = steps
+			o.Evals(1)
+			if err := runWFault(c2, -1, "expired-deadline-then-fresh", nil, o); err != nil {
+				return fmt.Errorf("expired write deadline for step %d only, fresh deadline afterwards, transport honours deadlines: %w", j, err)
+			}
 		}
 	}
 	return nil
@@ -176,7 +184,25 @@ func runWFault(c WFaultCase, k int, kind string, wire0 []byte, o *Obs) error {
 	tw := RunWrite(conn, tr, c.Steps, c.W.Compress)
 	if !tr.WriteFaultFired() {
 		if k < 0 {
-			return nil // nothing was written under the expired deadline (only WriteControl calls with their own deadlines, or nothing at all)
+			// Nothing reached the transport under the expired deadline.  If the
+			// library nevertheless failed a valid message-level call, that message
+			// is lost and the stream must end there: later calls fail, nothing
+			// more is written.
+			for i, cl := range tw.Calls {
+				if cl.Err == nil || cl.Bad || !isMessageLevel(cl.API) {
+					continue
+				}
+				for _, later := range tw.Calls[i+1:] {
+					if isMessageLevel(later.API) && later.Err == nil && !later.Bad {
+						return fmt.Errorf("step %d %s failed (%v) without any transport failure, yet step %d %s succeeded afterwards: a message was dropped and the stream goes on", cl.Step, cl.API, cl.Err, later.Step, later.API)
+					}
+				}
+				if len(tr.Wrote) != cl.WroteAfter {
+					return fmt.Errorf("step %d %s failed (%v), yet %d more bytes were written afterwards", cl.Step, cl.API, cl.Err, len(tr.Wrote)-cl.WroteAfter)
+				}
+				break
+			}
+			return nil
 		}
 		return fmt.Errorf("harness: fault did not fire (program is not deterministic in its transport operations)")
 	}
